@@ -38,6 +38,22 @@ descriptor given / default, aligned and mis-aligned arguments, list / array type
 (default / explicit pattern list incl. conditions in no partial), to_dict + rdms_from_dict, permute_rdms, get_vectors,
 get_matrices, to_df.
 
+Input classes.  The class of a failure is the class the MODEL (not the outcome) gives to the step at which the clause
+fails: 'plain' unless the step is one of
+  concat-misaligned                    concat whose arguments list the conditions in different orders (re-alignment needed)
+  concat-misaligned-related-arguments  ... and two of the mis-aligned arguments were derived from each other without copy()
+  inplace-on-derived-object            reorder / sort_by / append on an object while an object it was derived from (or that was
+                                       derived from it) by anything but copy() / from_partials / permute_rdms is still in the pool
+  single-object-list                   concat / from_partials of a list holding one object
+  permute_rdms                         permute_rdms with a non-identity vector on an object with pattern descriptors
+  getitem-single-condition             indexing / iterating an object over one condition
+  scalar-str-value-containing-another-label, sort_by-ndarray-order   (C10/argument-forms)
+On the tree this tier was written against these classes fail (see C10_findings.md); every other class holds.
+
+Domains (`tier_c`): sequences (exhaustive short sequences over a menu of concrete operations), histories (seeded random
+long ones), concat / from_partials / permute_rdms (exhaustive over condition orders), edge-sizes (one condition, zero RDMs),
+size-recovery, conversion, argument-forms.
+
 NOT covered by this tier: save/load through hdf5/pkl files (C16); RDMs.mean, rescale, transforms (they compute values);
 inadmissible arguments (non-permutation orders, selections leaving zero conditions -- an RDM over 0 conditions has no
 vector form --, concat/append of objects over different condition sets, duplicate-valued target descriptors, objects whose
@@ -344,6 +360,9 @@ def m_step(models, op, fam_counter):
         out['new'] = [first.new(rows=rows, rnames=rnames, odesc=common, rindex=range(len(rows)))]
         if misaligned:
             out['flags'] += [('completes', 'concat-misaligned'), ('frame', 'concat-misaligned')]
+            mis = [k for k, o in zip(idxs, objs) if o.cids != first.cids]
+            if any(k != j and models[k].fam == models[j].fam for k in mis for j in mis):
+                out['flags'].append(('values', 'concat-misaligned-related-arguments'))
         if len(objs) == 1:
             out['flags'].append(('rdm-descriptors', 'single-object-list'))
     elif kind == 'from_partials':
@@ -843,6 +862,21 @@ def orc_argforms(case):
                 mats[r, a, b] = mats[r, b, a] = vec[r, k]
                 k += 1
     kind = case['kind']
+    if kind == 'from_dict':
+        # dictionary form as read back from an hdf5 file: descriptors stored as {'0': v0, '1': v1, ...}
+        from rsatoolbox.rdm.rdms import rdms_from_dict
+        n_r = case['n_rdm']
+        vec = np.arange(n_r * L, dtype=float).reshape(n_r, L) + 1
+        subj = ['s%02d' % ((7 * r) % n_r) for r in range(n_r)]
+        d = dict(dissimilarities=vec.copy(), descriptors={}, dissimilarity_measure='m',
+                 rdm_descriptors={'subj': {str(r): subj[r] for r in range(n_r)}, 'index': list(range(n_r))},
+                 pattern_descriptors={'name': {str(a): names[a] for a in range(n)}, 'index': np.arange(n)})
+        y = rdms_from_dict(d)
+        if list(y.rdm_descriptors['subj']) != subj or list(y.pattern_descriptors['name']) != list(names):
+            return f'descriptors after rdms_from_dict: {list(y.rdm_descriptors["subj"])}, {list(y.pattern_descriptors["name"])}'
+        if not np.array_equal(y.get_vectors(), vec):
+            return 'dissimilarities changed by rdms_from_dict'
+        return None
     if kind in ('subset_pattern', 'subsample_pattern'):
         value = case['value']
         y = getattr(x, kind)('name', value)
@@ -973,7 +1007,7 @@ def dom_exhaustive(run, thorough):
                'list- and array-typed descriptors, vector / F-ordered / matrix / 1-D input) with two partner objects; every step of '
                'every sequence checked' % (L_full, len(MENU), '' if thorough else ' and of length 3 over a sub-menu of %d' % len(MENU_SMALL),
                                            ' and '.join('%dx%d' % s for s in shapes)),
-               exhaustive=True, budget_s=600 if thorough else 40)
+               exhaustive=True, budget_s=480 if thorough else 25)
     for (n_rdm, n_cond) in shapes:
         for variant in (0, 1):
             src = _exh_sources(n_rdm, n_cond, variant)
@@ -1108,11 +1142,11 @@ def _rand_sources(rs):
 
 
 def dom_random(run, thorough):
-    n_seeds = 1500 if thorough else 160
+    n_seeds = 1200 if thorough else 200
     mu = Multi(run, 'histories',
                '%d seeded random admissible histories of <= 12 operations (13 operation kinds, all argument forms) over pools '
                'starting from 3 objects with 1..6 RDMs over 2..8 shared conditions (NaN entries, list/array descriptors, '
-               'vector/F-ordered/matrix input, duplicate descriptor values)' % n_seeds, budget_s=420 if thorough else 20)
+               'vector/F-ordered/matrix input, duplicate descriptor values)' % n_seeds, budget_s=240 if thorough else 12)
     for seed in range(n_seeds):
         if mu.out_of_budget():
             break
@@ -1143,6 +1177,42 @@ def dom_concat(run, thorough):
             mu.check(dict(src=src, ops=[['concat', None, {'objs': [0, 1, 2], 'target': None, 'call': 'list'}]]))
         for call in ('args', 'list'):
             mu.check(dict(src=[_src([0, 1], cids)], ops=[['concat', None, {'objs': [0], 'target': None, 'call': call}]]))
+        # two arguments derived from each other (no copy) that both need re-alignment
+        for ptype in ('list', 'array'):
+            src = [_src([0], cids, ptype=ptype), _src([5, 6], cids[::-1], ptype=ptype)]
+            for objs in ([0, 2, 1], [0, 1, 2], [0, 1, 1]):
+                mu.check(dict(src=src, ops=[['subset', 1, {'by': 'rid', 'pos': [0], 'cont': 'list'}],
+                                            ['concat', None, {'objs': objs, 'target': 'cid', 'call': 'args'}]]))
+    return mu.done()
+
+
+def dom_edge(run, thorough):
+    mu = Multi(run, 'edge-sizes',
+               'every operation kind once on a 2-RDM object over ONE condition, on an object with ZERO RDMs (selection of an absent '
+               'value), on objects over 2 conditions and over 40 conditions; from_partials of partials over disjoint single conditions',
+               exhaustive=False)
+    one = [_src([0, 1], [5]), _src([7], [5], ptype='array', rtype='array')]
+    two = [_src([0, 1], [5, 3], nan=[[1, 3, 5]]), _src([7], [5, 3], ptype='array', form='vector1d')]
+    ops_each = [['getitem', 0, {'i': 0}], ['getitem', 0, {'i': [1, 0]}], ['iter', 0, {'k': 1}],
+                ['subset', 0, {'by': 'rid', 'pos': [1], 'cont': 'list'}], ['subsample', 0, {'by': 'rs', 'pos': [0, 0], 'cont': 'tuple'}],
+                ['subset_pattern', 0, {'by': 'cid', 'pos': [0], 'cont': 'scalar'}],
+                ['subsample_pattern', 0, {'by': 'cid', 'pos': [0, 0], 'cont': 'list'}],
+                ['reorder', 0, {'perm': 'rev'}], ['sort_by', 0, {'by': 'pn', 'how': 'alpha'}],
+                ['sort_by', 0, {'by': 'cid', 'how': 'list', 'perm': 'rev'}], ['append', 0, {'other': 1}], ['copy', 0, {}], ['dict', 0, {}],
+                ['concat', None, {'objs': [0, 1], 'target': None}], ['concat', None, {'objs': [1, 0], 'target': 'cid', 'call': 'list'}],
+                ['from_partials', None, {'objs': [0, 1], 'desc': 'cid', 'all': None}],
+                ['from_partials', None, {'objs': [1, 0], 'desc': 'pn', 'all': 'rev+extra'}]]
+    big = [_src([0, 1], range(40), nan=[[1, 3, 5]], ptype='array'), _src([7], range(40), form='matrix')]
+    for src in (one, two, big):
+        for op in ops_each:
+            mu.check(dict(src=src, ops=[op]))
+            # the same on an object without RDMs
+            if op[1] == 0 and op[0] not in ('getitem', 'iter'):
+                case = dict(src=src, ops=[['subset', 0, {'by': 'rid', 'pos': [], 'cont': 'list', 'absent': True}], [op[0], -1, op[2]]])
+                if _admissible(case):
+                    mu.check(case)
+    mu.check(dict(src=[_src([0], [5]), _src([1, 2], [3])], ops=[['from_partials', None, {'objs': [0, 1], 'desc': 'cid', 'all': None}],
+                                                              ['getitem', -1, {'i': [2, 0]}]]))
     return mu.done()
 
 
@@ -1157,12 +1227,12 @@ def dom_partials(run, thorough):
                'from_partials of two partial RDMs: ALL pairs of arrangements (ordered subsets of >= 2 conditions) of a universe of 3 '
                'conditions%s, pattern list default / reversed / reversed with a condition in no partial, int and str descriptor; '
                'followed by subset_pattern and a second from_partials; single partial'
-               % (' and of 4 conditions' if thorough else '; universe of 4: all arrangements against 12 sampled ones'),
+               % (' and of 4 conditions' if thorough else '; universe of 4: all arrangements against 6 sampled ones'),
                exhaustive=True)
     for n_u in (3, 4):
         univ = list(range(n_u))
         arr = list(_arrangements(univ, 2))
-        seconds = arr if (thorough or n_u == 3) else arr[::5]
+        seconds = arr if (thorough or n_u == 3) else arr[::10]
         for s1 in arr:
             for s2 in seconds:
                 for allp in (None, 'rev', 'rev+extra'):
@@ -1196,7 +1266,7 @@ def dom_permute(run, thorough):
 
 def dom_small(run, thorough):
     out = []
-    top = 20000 if thorough else 4000
+    top = 20000 if thorough else 2000
     bd = Bounded(run, 'C10/size-recovery', 'C10/_get_n_from_reduced_vectors/oracle/size-recovery',
                  'every number of conditions 1..%d (helpers, on empty arrays of the right length) and 1..%d (constructed RDMs), plus '
                  '10^5, 10^6, 2^26+1 conditions' % (top, 60 if thorough else 40), exhaustive=True, function='_get_n_from_reduced_vectors')
@@ -1221,7 +1291,7 @@ def dom_small(run, thorough):
     bd.done()
     out.append(bd)
     bd = Bounded(run, 'C10/argument-forms', 'C10/RDMs/oracle/argument-forms',
-                 'scalar str value for subset_pattern / subsample_pattern over label sets with and without labels that are substrings of '
+                 'rdms_from_dict of hdf5-style dictionaries with 1..25 RDMs; scalar str value for subset_pattern / subsample_pattern over label sets with and without labels that are substrings of '
                  'each other; sort_by with the explicit order given as list and as ndarray, all orders of 3 labels',
                  exhaustive=False, function='RDMs.subset_pattern')
     for names in (['a', 'b', 'c', 'd'], ['c1', 'c10', 'x', 'y'], ['ab', 'a', 'b', 'y'], ['face', 'house', 'facehouse']):
@@ -1231,6 +1301,9 @@ def dom_small(run, thorough):
                 bd.check(orc_argforms, dict(kind=kind, names=names, value=value),
                          'scalar-str-value-containing-another-label' if (contained and kind == 'subset_pattern') else 'scalar-str-value',
                          function='RDMs.' + kind)
+    for n_r in (1, 3, 12, 25):
+        bd.check(orc_argforms, dict(kind='from_dict', names=['c%02d' % ((5 * a) % 13) for a in range(13)], n_rdm=n_r),
+                 'hdf5-style-dictionary', function='rdms_from_dict')
     for perm in itertools.permutations(range(3)):
         for arr in (False, True):
             bd.check(orc_argforms, dict(kind='sort_by', names=['b', 'c', 'a'], perm=list(perm), array=arr),
@@ -1244,6 +1317,7 @@ def tier_c(run, thorough):
     bds = []
     bds += dom_small(run, thorough)
     bds += dom_concat(run, thorough)
+    bds += dom_edge(run, thorough)
     bds += dom_partials(run, thorough)
     bds += dom_permute(run, thorough)
     bds += dom_exhaustive(run, thorough)
